@@ -665,6 +665,17 @@ struct Walk {
     empties: usize,
     height: usize,
 }
+impl Walk {
+    fn condition(&self) -> &'static str {
+        if self.empties > 0 {
+            "emptied-leaf"
+        } else if self.leaves.len() >= 2 {
+            "multi-leaf"
+        } else {
+            "single-leaf"
+        }
+    }
+}
 
 /// independent decoder of the documented varint table (src/encoding/varint.rs docs)
 fn varint(b: &[u8]) -> Option<(u64, usize)> {
@@ -831,14 +842,14 @@ impl Walk {
             if i == 0 {
                 if let Some(l) = lo {
                     if key < self.key(mem, l) {
-                        self.prob("sep-bounds", "key>=lower-separator>below", format!("page {page} first key {} < separator {}", hex(&key[..klen.min(12)]), hex(&self.key(mem, l)[..(l.len as usize).min(12)])));
+                        self.prob("sep-bounds", "within-separators>below-lower", format!("page {page} first key {} < separator {}", hex(&key[..klen.min(12)]), hex(&self.key(mem, l)[..(l.len as usize).min(12)])));
                     }
                 }
             }
             if i == n - 1 {
                 if let Some(h) = hi {
                     if key >= self.key(mem, h) {
-                        self.prob("sep-bounds", "key<upper-separator>not-below", format!("page {page} last key {} >= separator {}", hex(&key[..klen.min(12)]), hex(&self.key(mem, h)[..(h.len as usize).min(12)])));
+                        self.prob("sep-bounds", "within-separators>not-below-upper", format!("page {page} last key {} >= separator {}", hex(&key[..klen.min(12)]), hex(&self.key(mem, h)[..(h.len as usize).min(12)])));
                     }
                 }
             }
@@ -882,6 +893,13 @@ impl Walk {
 
     /// in-order content of the tree (as the walker sees it) == model ?
     fn content_diff(&self, mem: &Mem, m: &Model) -> Option<(String, String)> {
+        for (i, w2) in self.ents.windows(2).enumerate() {
+            let (a, b) = (self.ent_key(mem, &w2[0]), self.ent_key(mem, &w2[1]));
+            if a >= b {
+                let class = if a == b { "key-stored-twice" } else { "key-misplaced" };
+                return Some((class.into(), format!("in-order entries #{i} {} and #{} {} are not increasing", hex(&a[..a.len().min(12)]), i + 1, hex(&b[..b.len().min(12)]))));
+            }
+        }
         let mut it = m.map.iter();
         let mut i = 0usize;
         loop {
@@ -1050,9 +1068,17 @@ struct V {
     observed: String,
     blocking: bool,
 }
+impl V {
+    /// persistent conditions (a property of the state, not of the last call) are blamed on the
+    /// structural condition of the tree instead of the last operation
+    fn persistent(&self) -> bool {
+        matches!(self.oracle, "scan-fwd" | "scan-bwd" | "seek" | "frag-accounting")
+    }
+}
 
 struct StateReport {
     viols: Vec<V>,
+    cond: &'static str,
     /// tree content (walker + get) equals the model and the structure is sound
     content_ok: bool,
     empties: usize,
@@ -1104,7 +1130,7 @@ fn check_state(mem: &mut Mem, t: &Tree, m: &Model, probes: &[Vec<u8>], w: &mut W
     }
     if !content_ok {
         // the cursor oracles would only restate the divergence
-        return StateReport { viols, content_ok, empties: w.empties, height: w.height, root_seps: w.root_seps, leaves: w.leaves.len() };
+        return StateReport { viols, cond: w.condition(), content_ok, empties: w.empties, height: w.height, root_seps: w.root_seps, leaves: w.leaves.len() };
     }
     let big = m.map.len() > 128;
     let limit = 2 * m.map.len() + 16;
@@ -1152,7 +1178,7 @@ fn check_state(mem: &mut Mem, t: &Tree, m: &Model, probes: &[Vec<u8>], w: &mut W
             seek_reported = true;
         }
     }
-    StateReport { viols, content_ok, empties: w.empties, height: w.height, root_seps: w.root_seps, leaves: w.leaves.len() }
+    StateReport { viols, cond: w.condition(), content_ok, empties: w.empties, height: w.height, root_seps: w.root_seps, leaves: w.leaves.len() }
 }
 
 // ---------------------------------------------------------------------------
@@ -1426,7 +1452,7 @@ struct Outcome {
     lab: &'static str,
     res: Res,
     /// violations found at the transition itself, with their op pattern
-    viols: Vec<(V, String)>,
+    viols: Vec<(V, String, &'static str)>,
     /// do not extend this history
     prune: bool,
     h: u128,
@@ -1451,7 +1477,7 @@ fn do_transition(mem: &mut Mem, tree: &mut Tree, model: &mut Model, hm: HintMode
         Ok(Change::Del) => model.del(&op.key),
         Ok(Change::Nothing) => {}
         Err((exp, obs)) => {
-            viols.push((V { prop: "C28", oracle: "ret", class: format!("{exp}>{obs}"), expected: format!("{}({}) returns {exp}", op.kind.name(), hex(&op.key[..op.key.len().min(9)])), observed: format!("{:?}", res), blocking: true }, pat.clone()));
+            viols.push((V { prop: "C28", oracle: "ret", class: format!("{exp}>{obs}"), expected: format!("{}({}) returns {exp}", op.kind.name(), hex(&op.key[..op.key.len().min(9)])), observed: format!("{:?}", res), blocking: true }, pat.clone(), ""));
             prune = true;
         }
     }
@@ -1464,7 +1490,7 @@ fn do_transition(mem: &mut Mem, tree: &mut Tree, model: &mut Model, hm: HintMode
                 v.oracle = "err-unchanged";
                 v.class = v.class.replace("model>", "unchanged>");
             }
-            viols.push((v, pat.clone()));
+            viols.push((v, pat.clone(), sr.cond));
         }
         if !sr.content_ok {
             prune = true;
@@ -1482,8 +1508,8 @@ fn do_transition(mem: &mut Mem, tree: &mut Tree, model: &mut Model, hm: HintMode
     o
 }
 
-fn report(rep: &mut Reporter, v: &V, pat: &str, case: &dyn Fn() -> Value) {
-    let sig = format!("{}/{}/{}/{}", v.prop, v.oracle, pat, v.class);
+fn report(rep: &mut Reporter, v: &V, pat: &str, cond: &str, case: &dyn Fn() -> Value) {
+    let sig = format!("{}/{}/{}/{}", v.prop, v.oracle, if v.persistent() { cond } else { pat }, v.class);
     rep.violation(v.prop, v.oracle, &sig, || case(), &v.expected, &v.observed);
 }
 
@@ -1749,7 +1775,7 @@ impl C28 {
         rep.count(&format!("task.{}.{}.{}.states", seed.name, task.pass.name(), a.name), 1);
         let pat = pattern(last.0, last.1.as_ref(), flags);
         for v in &sr.viols {
-            report(rep, v, &pat, &|| env_case(None));
+            report(rep, v, &pat, sr.cond, &|| env_case(None));
         }
         if !sr.viols.is_empty() {
             rep.count("states.with-violation", 1);
@@ -1786,8 +1812,8 @@ impl C28 {
             rep.count("split.interior", o.new_interior);
             rep.count("root.change", o.new_root as u64);
             rep.count("page.leaked-by-failed-split", o.leaked);
-            for (v, p) in &o.viols {
-                report(rep, v, p, &|| env_case(Some(oi as u16)));
+            for (v, p, c) in &o.viols {
+                report(rep, v, p, c, &|| env_case(Some(oi as u16)));
             }
             if o.prune {
                 rep.pruned(1);
@@ -1858,7 +1884,7 @@ impl Check for C28 {
             rep.bulk(1, 1);
             let pat = pattern(last.0, last.1.as_ref(), flags);
             for v in &sr.viols {
-                report(rep, v, &pat, &|| c.clone());
+                report(rep, v, &pat, sr.cond, &|| c.clone());
             }
             if !sr.content_ok || step == ops.len() {
                 break;
@@ -1872,8 +1898,8 @@ impl Check for C28 {
             rep.add_transitions(1);
             rep.add_traces_validated(1);
             rep.outcome(&format!("{}:{}", o.lab, o.res.class()));
-            for (v, p) in &o.viols {
-                report(rep, v, p, &|| c.clone());
+            for (v, p, cd) in &o.viols {
+                report(rep, v, p, cd, &|| c.clone());
             }
             if o.prune {
                 break;
